@@ -11,29 +11,30 @@ attribute [local simp] run seqM envStep gotCode andThen bossIn keyIn init Boss.t
   receiveIn Receive.table Receive.init RIn.tag receiveOut ok raise Send.init Send.table SIn.tag sendIn sendOut
 
 /-- what this client sends as its PAKE message -/
-def myPake (C : Crypto) (cfg : Cfg) (code : String) : Bytes :=
-  pakeBody (C.pakeStart (toBytes C code) (toBytes C cfg.appid) cfg.rnd)
+def myPake (C : Crypto) (cfg : Cfg) (pw idS : Bytes) : Bytes :=
+  pakeBody (C.pakeStart pw idS cfg.rnd)
 
 /-- state after `set_code` alone -/
-def stCode (C : Crypto) (cfg : Cfg) (code : String) : St :=
-  { init with k := .S10, sk := .S1_know_code, sp := some (toBytes C code, toBytes C cfg.appid),
-              b := .S1_lonely, out := [.wCode code, .mAdd "pake" (myPake C cfg code)] }
+def stCode (C : Crypto) (cfg : Cfg) (code : PyStr) (pw idS : Bytes) : St :=
+  { init with k := .S10, sk := .S1_know_code, sp := some (pw, idS),
+              b := .S1_lonely, out := [.wCode code, .mAdd "pake" (myPake C cfg pw idS)] }
 
 /-- state after code and the peer's PAKE element, key computed -/
-def stKey (C : Crypto) (cfg : Cfg) (code : String) (key : Bytes) : St :=
-  { stCode C cfg code with
+def stKey (C : Crypto) (cfg : Cfg) (code : PyStr) (pw idS : Bytes) (key : Bytes) : St :=
+  { stCode C cfg code pw idS with
     k := .S11, sk := .S2_know_key, o := .S1_yes_pake, r := .S1_unverified_key, rkey := some key,
     wkey := some key, nonce := 1,
-    out := [.wCode code, .mAdd "pake" (myPake C cfg code), .wKey key,
+    out := [.wCode code, .mAdd "pake" (myPake C cfg pw idS), .wKey key,
             .mAdd "version" (C.box (phaseKey C key cfg.side "version") (natNonce 0) cfg.versions)] }
 
-theorem gotCode_init (C : Crypto) (cfg : Cfg) (code : String) :
-    gotCode C cfg code init = (stCode C cfg code, none) := by
-  simp [stCode, myPake]
+theorem gotCode_init (C : Crypto) (cfg : Cfg) (code : PyStr) (pw idS : Bytes)
+    (hc : toBytes C code = some pw) (ha : toBytes C cfg.appid = some idS) :
+    gotCode C cfg code init = (stCode C cfg code pw idS, none) := by
+  simp [stCode, myPake, hc, ha]
 
-theorem rxPake_stCode (C : Crypto) (cfg : Cfg) (code peer : String) (m key : Bytes)
-    (h : C.pakeFinish (toBytes C code) (toBytes C cfg.appid) cfg.rnd m = some key) :
-    orderGotMessage C cfg ⟨peer, "pake", pakeBody m⟩ (stCode C cfg code) = (stKey C cfg code key, none) := by
+theorem rxPake_stCode (C : Crypto) (cfg : Cfg) (code : PyStr) (pw idS : Bytes) (peer : String) (m key : Bytes)
+    (h : C.pakeFinish pw idS cfg.rnd m = some key) :
+    orderGotMessage C cfg ⟨peer, "pake", pakeBody m⟩ (stCode C cfg code pw idS) = (stKey C cfg code pw idS key, none) := by
   simp [stCode, stKey, h, myPake]
 
 
@@ -42,44 +43,47 @@ theorem rxPake_init (C : Crypto) (cfg : Cfg) (peer : String) (body : Bytes) :
       = ({ init with k := .S01, stash := some body, o := .S1_yes_pake }, none) := by
   simp
 
-theorem gotCode_stashed (C : Crypto) (cfg : Cfg) (code : String) (m key : Bytes)
-    (h : C.pakeFinish (toBytes C code) (toBytes C cfg.appid) cfg.rnd m = some key) :
+theorem gotCode_stashed (C : Crypto) (cfg : Cfg) (code : PyStr) (pw idS : Bytes) (m key : Bytes)
+    (hc : toBytes C code = some pw) (ha : toBytes C cfg.appid = some idS)
+    (h : C.pakeFinish pw idS cfg.rnd m = some key) :
     gotCode C cfg code { init with k := .S01, stash := some (pakeBody m), o := .S1_yes_pake }
-      = ({ stKey C cfg code key with stash := some (pakeBody m) }, none) := by
-  simp [stKey, stCode, h, myPake]
+      = ({ stKey C cfg code pw idS key with stash := some (pakeBody m) }, none) := by
+  simp [stKey, stCode, h, myPake, hc, ha]
 
 /-! ## a hostile PAKE message: unusable body, or an element the library refuses -/
 
 /-- state after the code and a hostile PAKE message; `skst` = `S3_scared` (unusable body, via
     `got_pake_bad`) or `S2_know_key` (element refused inside `compute_key`) -/
-def stHostile (C : Crypto) (cfg : Cfg) (code : String) (skst : SortedKey.State) : St :=
-  { stCode C cfg code with
+def stHostile (C : Crypto) (cfg : Cfg) (code : PyStr) (pw idS : Bytes) (skst : SortedKey.State) : St :=
+  { stCode C cfg code pw idS with
     k := .S11, sk := skst, o := .S1_yes_pake, b := .S3_closing, result := .wrongPassword,
-    out := [.wCode code, .mAdd "pake" (myPake C cfg code), .tClose "scary"] }
+    out := [.wCode code, .mAdd "pake" (myPake C cfg pw idS), .tClose "scary"] }
 
-theorem rxPake_stCode_refused (C : Crypto) (cfg : Cfg) (code peer : String) (m : Bytes)
-    (h : C.pakeFinish (toBytes C code) (toBytes C cfg.appid) cfg.rnd m = none) :
-    orderGotMessage C cfg ⟨peer, "pake", pakeBody m⟩ (stCode C cfg code)
-      = (stHostile C cfg code .S2_know_key, none) := by
+theorem rxPake_stCode_refused (C : Crypto) (cfg : Cfg) (code : PyStr) (pw idS : Bytes) (peer : String) (m : Bytes)
+    (h : C.pakeFinish pw idS cfg.rnd m = none) :
+    orderGotMessage C cfg ⟨peer, "pake", pakeBody m⟩ (stCode C cfg code pw idS)
+      = (stHostile C cfg code pw idS .S2_know_key, none) := by
   simp [stCode, stHostile, h, myPake]
 
-theorem gotCode_stashed_refused (C : Crypto) (cfg : Cfg) (code : String) (m : Bytes)
-    (h : C.pakeFinish (toBytes C code) (toBytes C cfg.appid) cfg.rnd m = none) :
+theorem gotCode_stashed_refused (C : Crypto) (cfg : Cfg) (code : PyStr) (pw idS : Bytes) (m : Bytes)
+    (hc : toBytes C code = some pw) (ha : toBytes C cfg.appid = some idS)
+    (h : C.pakeFinish pw idS cfg.rnd m = none) :
     gotCode C cfg code { init with k := .S01, stash := some (pakeBody m), o := .S1_yes_pake }
-      = ({ stHostile C cfg code .S2_know_key with stash := some (pakeBody m) }, none) := by
-  simp [stCode, stHostile, h, myPake]
+      = ({ stHostile C cfg code pw idS .S2_know_key with stash := some (pakeBody m) }, none) := by
+  simp [stCode, stHostile, h, myPake, hc, ha]
 
-theorem rxPake_stCode_unusable (C : Crypto) (cfg : Cfg) (code peer : String) (body : Bytes)
+theorem rxPake_stCode_unusable (C : Crypto) (cfg : Cfg) (code : PyStr) (pw idS : Bytes) (peer : String) (body : Bytes)
     (h : parsePake body = none) :
-    orderGotMessage C cfg ⟨peer, "pake", body⟩ (stCode C cfg code)
-      = (stHostile C cfg code .S3_scared, none) := by
+    orderGotMessage C cfg ⟨peer, "pake", body⟩ (stCode C cfg code pw idS)
+      = (stHostile C cfg code pw idS .S3_scared, none) := by
   simp [stCode, stHostile, h, myPake, -parsePake]
 
-theorem gotCode_stashed_unusable (C : Crypto) (cfg : Cfg) (code : String) (body : Bytes)
+theorem gotCode_stashed_unusable (C : Crypto) (cfg : Cfg) (code : PyStr) (pw idS : Bytes) (body : Bytes)
+    (hc : toBytes C code = some pw) (ha : toBytes C cfg.appid = some idS)
     (h : parsePake body = none) :
     gotCode C cfg code { init with k := .S01, stash := some body, o := .S1_yes_pake }
-      = ({ stHostile C cfg code .S3_scared with stash := some body }, none) := by
-  simp [stCode, stHostile, h, myPake, -parsePake]
+      = ({ stHostile C cfg code pw idS .S3_scared with stash := some body }, none) := by
+  simp [stCode, stHostile, h, myPake, hc, ha, -parsePake]
 
 /-- no key was ever computed and the side is closing with WrongPasswordError -/
 structure Refused (s : St) : Prop where
@@ -94,8 +98,8 @@ structure Refused (s : St) : Prop where
   scary : ∀ mood, Ev.tClose mood ∈ s.out → mood = "scary"
   noClosed : ∀ v, Ev.wClosed v ∉ s.out
 
-theorem stHostile_refused (C : Crypto) (cfg : Cfg) (code : String) (skst : SortedKey.State) (x : Option Bytes) :
-    Refused { stHostile C cfg code skst with stash := x } := by
+theorem stHostile_refused (C : Crypto) (cfg : Cfg) (code : PyStr) (pw idS : Bytes) (skst : SortedKey.State) (x : Option Bytes) :
+    Refused { stHostile C cfg code pw idS skst with stash := x } := by
   constructor <;> simp [stHostile, stCode, Ev.delivers]
 
 /-- any later message (whatever its body) reaches a Receive without key: judged undecryptable,
@@ -183,8 +187,8 @@ structure Scared (s : St) (key : Bytes) : Prop where
 def Bad (C : Crypto) (key : Bytes) (m : Msg) : Prop :=
   C.unbox (phaseKey C key m.side m.phase) m.body = none
 
-theorem stKey_unverified (C : Crypto) (cfg : Cfg) (code : String) (key : Bytes) :
-    Unverified (stKey C cfg code key) key := by
+theorem stKey_unverified (C : Crypto) (cfg : Cfg) (code : PyStr) (pw idS : Bytes) (key : Bytes) :
+    Unverified (stKey C cfg code pw idS key) key := by
   constructor <;> simp [stKey, stCode, Ev.delivers]
 
 def scare (s : St) : St :=
@@ -375,10 +379,10 @@ theorem queue_early (C : Crypto) (cfg : Cfg) (msgs : List Msg) :
     rw [h1]; simp only []
     rw [this]; simp
 
-theorem rxPake_stCode_queued (C : Crypto) (cfg : Cfg) (code peer : String) (m key : Bytes) (pre : List Msg)
-    (h : C.pakeFinish (toBytes C code) (toBytes C cfg.appid) cfg.rnd m = some key) :
-    orderGotMessage C cfg ⟨peer, "pake", pakeBody m⟩ { stCode C cfg code with oq := pre }
-      = andThen (seqM (receiveGotMessage C cfg) pre { stKey C cfg code key with oq := pre })
+theorem rxPake_stCode_queued (C : Crypto) (cfg : Cfg) (code : PyStr) (pw idS : Bytes) (peer : String) (m key : Bytes) (pre : List Msg)
+    (h : C.pakeFinish pw idS cfg.rnd m = some key) :
+    orderGotMessage C cfg ⟨peer, "pake", pakeBody m⟩ { stCode C cfg code pw idS with oq := pre }
+      = andThen (seqM (receiveGotMessage C cfg) pre { stKey C cfg code pw idS key with oq := pre })
           (fun s' => ok { s' with oq := [] }) := by
   simp [stCode, stKey, h, myPake]
   generalize seqM (receiveGotMessage C cfg) pre _ = r
@@ -403,21 +407,21 @@ theorem Unverified.set_oq {s : St} {key : Bytes} (h : Unverified s key) (q : Lis
 /-! ## the first decryptable message -/
 
 /-- state after the peer's `version` message decrypted under our key -/
-def stHappy (C : Crypto) (cfg : Cfg) (code : String) (key pt : Bytes) : St :=
-  { stKey C cfg code key with
+def stHappy (C : Crypto) (cfg : Cfg) (code : PyStr) (pw idS : Bytes) (key pt : Bytes) : St :=
+  { stKey C cfg code pw idS key with
     r := .S2_verified_key, s := .S1_verified_key, skey := some key, b := .S2_happy,
-    out := (stKey C cfg code key).out ++ [.wVerifier (C.hkdf key verifierPurpose 32), .wVersions pt] }
+    out := (stKey C cfg code pw idS key).out ++ [.wVerifier (C.hkdf key verifierPurpose 32), .wVersions pt] }
 
-theorem rxVersion_stKey (C : Crypto) (cfg : Cfg) (code peer : String) (key body pt : Bytes)
+theorem rxVersion_stKey (C : Crypto) (cfg : Cfg) (code : PyStr) (pw idS : Bytes) (peer : String) (key body pt : Bytes)
     (h : C.unbox (phaseKey C key peer "version") body = some pt) :
-    orderGotMessage C cfg ⟨peer, "version", body⟩ (stKey C cfg code key)
-      = (stHappy C cfg code key pt, none) := by
+    orderGotMessage C cfg ⟨peer, "version", body⟩ (stKey C cfg code pw idS key)
+      = (stHappy C cfg code pw idS key pt, none) := by
   simp [stKey, stCode, stHappy, receiveGotMessage, h, bossGotMessage, classifyPhase]
 
-theorem rxVersion_stKey_stash (C : Crypto) (cfg : Cfg) (code peer : String) (key body pt : Bytes) (x : Option Bytes)
+theorem rxVersion_stKey_stash (C : Crypto) (cfg : Cfg) (code : PyStr) (pw idS : Bytes) (peer : String) (key body pt : Bytes) (x : Option Bytes)
     (h : C.unbox (phaseKey C key peer "version") body = some pt) :
-    orderGotMessage C cfg ⟨peer, "version", body⟩ { stKey C cfg code key with stash := x }
-      = ({ stHappy C cfg code key pt with stash := x }, none) := by
+    orderGotMessage C cfg ⟨peer, "version", body⟩ { stKey C cfg code pw idS key with stash := x }
+      = ({ stHappy C cfg code pw idS key pt with stash := x }, none) := by
   simp [stKey, stCode, stHappy, receiveGotMessage, h, bossGotMessage, classifyPhase]
 
 /-! ## consequences of the ideal primitives -/
@@ -433,8 +437,290 @@ theorem peer_sealed_bad {C : Crypto} (I : C.Ideal) (k k' : Bytes) (hk : k ≠ k'
   intro h
   exact hk (phaseKey_inj I k k' side phase h.symm)
 
-theorem toBytes_eq_iff {C : Crypto} (I : C.Ideal) (a b : String) :
-    toBytes C a = toBytes C b ↔ C.nfc a = C.nfc b :=
-  ⟨I.enc_inj _ _, fun h => by simp [toBytes, h]⟩
+/-! ## strict UTF-8 on code points: defined exactly on the surrogate-free strings, and injective -/
 
+theorem utf8cp_isSome (c : Nat) : (utf8cp c).isSome = cpEncodable c := by
+  unfold utf8cp cpEncodable
+  by_cases h1 : c < 0x80
+  · have : c < 0xD800 := by omega
+    simp [h1, this]
+  by_cases h2 : c < 0x800
+  · have : c < 0xD800 := by omega
+    simp [h1, h2, this]
+  by_cases h3 : 0xD800 ≤ c ∧ c ≤ 0xDFFF
+  · have a : ¬ c < 0xD800 := by omega
+    have b : ¬ 0xDFFF < c := by omega
+    simp [h1, h2, h3, a, b]
+  by_cases h4 : c < 0x10000
+  · by_cases a : c < 0xD800
+    · simp [h1, h2, h3, h4, a]
+    · have b : 0xDFFF < c := by omega
+      have d : c < 0x110000 := by omega
+      simp [h1, h2, h3, h4, a, b, d]
+  by_cases h5 : c < 0x110000
+  · have a : ¬ c < 0xD800 := by omega
+    have b : 0xDFFF < c := by omega
+    simp [h1, h2, h3, h4, h5, a, b]
+  · have a : ¬ c < 0xD800 := by omega
+    simp [h1, h2, h3, h4, h5, a]
+
+theorem utf8enc_isSome (s : PyStr) : (utf8enc s).isSome = encodable s := by
+  induction s with
+  | nil => simp [utf8enc, encodable]
+  | cons c cs ih =>
+    have hc := utf8cp_isSome c
+    simp only [encodable, List.all_cons] at ih ⊢
+    rw [← hc, ← ih]
+    simp only [utf8enc]
+    cases utf8cp c <;> cases utf8enc cs <;> simp
+
+theorem utf8enc_of_encodable {s : PyStr} (h : encodable s = true) : ∃ b, utf8enc s = some b := by
+  have := utf8enc_isSome s
+  rw [h] at this
+  exact Option.isSome_iff_exists.mp this
+
+theorem utf8enc_none_of_not_encodable {s : PyStr} (h : encodable s = false) : utf8enc s = none := by
+  have := utf8enc_isSome s
+  rw [h] at this
+  cases hh : utf8enc s with
+  | none => rfl
+  | some b => rw [hh] at this; simp at this
+
+/-- the encoding of one code point is never empty, and the lead byte fixes how long it is: two
+    encodings, each followed by anything, that agree as byte strings come from the same code point -/
+theorem utf8cp_prefix {c d : Nat} {a b x y : Bytes} (hc : utf8cp c = some a) (hd : utf8cp d = some b)
+    (h : a ++ x = b ++ y) : c = d ∧ x = y := by
+  unfold utf8cp at hc hd
+  split at hc
+  · split at hd
+    · simp at hc hd; subst hc; subst hd; simp at h; omega
+    · split at hd
+      · simp at hc hd; subst hc; subst hd; simp at h; omega
+      · split at hd
+        · simp at hd
+        · split at hd
+          · simp at hc hd; subst hc; subst hd; simp at h; omega
+          · split at hd
+            · simp at hc hd; subst hc; subst hd; simp at h; omega
+            · simp at hd
+  · split at hc
+    · split at hd
+      · simp at hc hd; subst hc; subst hd; simp at h; omega
+      · split at hd
+        · simp at hc hd; subst hc; subst hd; simp at h
+          refine ⟨by omega, h.2.2⟩
+        · split at hd
+          · simp at hd
+          · split at hd
+            · simp at hc hd; subst hc; subst hd; simp at h; omega
+            · split at hd
+              · simp at hc hd; subst hc; subst hd; simp at h; omega
+              · simp at hd
+    · split at hc
+      · simp at hc
+      · split at hc
+        · split at hd
+          · simp at hc hd; subst hc; subst hd; simp at h; omega
+          · split at hd
+            · simp at hc hd; subst hc; subst hd; simp at h; omega
+            · split at hd
+              · simp at hd
+              · split at hd
+                · simp at hc hd; subst hc; subst hd; simp at h
+                  refine ⟨by omega, h.2.2.2⟩
+                · split at hd
+                  · simp at hc hd; subst hc; subst hd; simp at h; omega
+                  · simp at hd
+        · split at hc
+          · split at hd
+            · simp at hc hd; subst hc; subst hd; simp at h; omega
+            · split at hd
+              · simp at hc hd; subst hc; subst hd; simp at h; omega
+              · split at hd
+                · simp at hd
+                · split at hd
+                  · simp at hc hd; subst hc; subst hd; simp at h; omega
+                  · split at hd
+                    · simp at hc hd; subst hc; subst hd; simp at h
+                      refine ⟨by omega, h.2.2.2.2⟩
+                    · simp at hd
+          · simp at hc
+
+/-- **strict UTF-8 is injective** (on the strings it encodes at all) -/
+theorem utf8enc_inj : ∀ (s t : PyStr) (b : Bytes), utf8enc s = some b → utf8enc t = some b → s = t := by
+  intro s
+  induction s with
+  | nil =>
+    intro t b hs ht
+    cases t with
+    | nil => rfl
+    | cons d ds =>
+      simp only [utf8enc, Option.some.injEq] at hs
+      subst hs
+      simp only [utf8enc] at ht
+      cases hd : utf8cp d with
+      | none => simp [hd] at ht
+      | some bd =>
+        cases hds : utf8enc ds with
+        | none => simp [hd, hds] at ht
+        | some bds =>
+          simp [hd, hds] at ht
+          have := utf8cp_prefix (x := bds) (y := bds) hd hd rfl
+          unfold utf8cp at hd
+          repeat' split at hd
+          all_goals simp at hd
+          all_goals (subst hd; simp at ht)
+  | cons c cs ih =>
+    intro t b hs ht
+    cases t with
+    | nil =>
+      simp only [utf8enc, Option.some.injEq] at ht
+      subst ht
+      simp only [utf8enc] at hs
+      cases hc : utf8cp c with
+      | none => simp [hc] at hs
+      | some bc =>
+        cases hcs : utf8enc cs with
+        | none => simp [hc, hcs] at hs
+        | some bcs =>
+          simp [hc, hcs] at hs
+          unfold utf8cp at hc
+          repeat' split at hc
+          all_goals simp at hc
+          all_goals (subst hc; simp at hs)
+    | cons d ds =>
+      simp only [utf8enc] at hs ht
+      cases hc : utf8cp c with
+      | none => simp [hc] at hs
+      | some bc =>
+        cases hcs : utf8enc cs with
+        | none => simp [hc, hcs] at hs
+        | some bcs =>
+          cases hd : utf8cp d with
+          | none => simp [hd] at ht
+          | some bd =>
+            cases hds : utf8enc ds with
+            | none => simp [hd, hds] at ht
+            | some bds =>
+              simp [hc, hcs] at hs
+              simp [hd, hds] at ht
+              obtain ⟨e1, e2⟩ := utf8cp_prefix hc hd (hs.trans ht.symm)
+              subst e1; subst e2
+              rw [ih ds bcs hcs hds]
+
+theorem toBytes_of_encodable {C : Crypto} (I : C.Ideal) {u : PyStr} (h : encodable u = true) :
+    ∃ b, toBytes C u = some b :=
+  utf8enc_of_encodable (by rw [I.nfc_encodable]; exact h)
+
+theorem toBytes_none {C : Crypto} (I : C.Ideal) {u : PyStr} (h : encodable u = false) : toBytes C u = none :=
+  utf8enc_none_of_not_encodable (by rw [I.nfc_encodable]; exact h)
+
+/-- `to_bytes` identifies exactly the NFC-equal strings (among those it accepts) -/
+theorem toBytes_eq_iff {C : Crypto} (a b : PyStr) (x y : Bytes)
+    (ha : toBytes C a = some x) (hb : toBytes C b = some y) :
+    x = y ↔ C.nfc a = C.nfc b := by
+  constructor
+  · intro h; subst h; exact utf8enc_inj _ _ _ ha hb
+  · intro h
+    unfold toBytes at ha hb
+    rw [h, hb] at ha
+    exact (Option.some.inj ha).symm
+
+/-! ## one side of a two-party run -/
+
+/-- the PAKE message (mailbox body) a client with this configuration and code publishes; `none` = it
+    publishes none (`to_bytes` raised inside `build_pake`: `set_code` failed with UnicodeEncodeError) -/
+def pakeOf (C : Crypto) (cfg : Cfg) (code : PyStr) : Option Bytes :=
+  match toBytes C code, toBytes C cfg.appid with
+  | some pw, some idS => some (myPake C cfg pw idS)
+  | _, _ => none
+
+/-- One side of a two-party run: it learns its code and the peer's PAKE message, in either order
+    (`codeFirst = false` is the `input_code` / slow-typist path through Key.S01).  A peer whose code
+    was refused publishes no PAKE message: then this side only ever learns its own code. -/
+def sideRun (C : Crypto) (cfg : Cfg) (code : PyStr) (peer : Cfg) (peerCode : PyStr) (codeFirst : Bool) : Res :=
+  match pakeOf C peer peerCode with
+  | none => run C cfg [.code code] init
+  | some body =>
+    let m : Msg := ⟨peer.side, "pake", body⟩
+    if codeFirst then run C cfg [.code code, .rx m] init else run C cfg [.rx m, .code code] init
+
+theorem pakeOf_some (C : Crypto) (cfg : Cfg) (code : PyStr) (pw idS : Bytes)
+    (hc : toBytes C code = some pw) (ha : toBytes C cfg.appid = some idS) :
+    pakeOf C cfg code = some (myPake C cfg pw idS) := by
+  simp [pakeOf, hc, ha]
+
+theorem pakeOf_none (C : Crypto) (cfg : Cfg) (code : PyStr)
+    (h : toBytes C code = none ∨ toBytes C cfg.appid = none) : pakeOf C cfg code = none := by
+  unfold pakeOf
+  rcases h with h | h
+  · rw [h]
+  · rw [h]; cases toBytes C code <;> rfl
+
+/-- both arrival orders, both sides encodable, the element accepted: the explicit end state -/
+theorem sideRun_eq (C : Crypto) (a b : Cfg) (ca cb : PyStr) (pwa ida pwb idb ka : Bytes)
+    (h1 : toBytes C ca = some pwa) (h2 : toBytes C a.appid = some ida)
+    (h3 : toBytes C cb = some pwb) (h4 : toBytes C b.appid = some idb)
+    (hk : C.pakeFinish pwa ida a.rnd (C.pakeStart pwb idb b.rnd) = some ka) (o : Bool) :
+    sideRun C a ca b cb o
+      = (if o then stKey C a ca pwa ida ka
+         else { stKey C a ca pwa ida ka with stash := some (myPake C b pwb idb) }, none) := by
+  unfold sideRun
+  rw [pakeOf_some C b cb pwb idb h3 h4]
+  cases o
+  · simp only [Bool.false_eq_true, if_false, run, seqM, envStep, rxPake_init, myPake,
+      gotCode_stashed C a ca pwa ida _ ka h1 h2 hk]
+  · simp only [if_true, run, seqM, envStep, gotCode_init C a ca pwa ida h1 h2, myPake,
+      rxPake_stCode C a ca pwa ida b.side _ ka hk]
+
+/-- four encodable strings: their `to_bytes` values -/
+theorem four_bytes {C : Crypto} (I : C.Ideal) {ca cb aa ab : PyStr}
+    (hca : encodable ca = true) (haa : encodable aa = true) (hcb : encodable cb = true) (hab : encodable ab = true) :
+    ∃ pwa ida pwb idb, toBytes C ca = some pwa ∧ toBytes C aa = some ida ∧
+      toBytes C cb = some pwb ∧ toBytes C ab = some idb := by
+  obtain ⟨pwa, h1⟩ := toBytes_of_encodable I hca
+  obtain ⟨ida, h2⟩ := toBytes_of_encodable I haa
+  obtain ⟨pwb, h3⟩ := toBytes_of_encodable I hcb
+  obtain ⟨idb, h4⟩ := toBytes_of_encodable I hab
+  exact ⟨pwa, ida, pwb, idb, h1, h2, h3, h4⟩
+
+/-! ## the driver's wire format for `PyStr` loses nothing -/
+
+theorem pyOfBytes_wireCp (c : Nat) (hc : c < 0x110000) (rest : Bytes) :
+    pyOfBytes (wireCp c ++ rest) = (pyOfBytes rest).map (c :: ·) := by
+  unfold wireCp
+  by_cases h1 : c < 0x80
+  · simp only [h1, if_true, List.cons_append, List.nil_append]; rw [pyOfBytes.eq_def]; simp [h1]
+  by_cases h2 : c < 0x800
+  · have a : ¬ (0xC0 + c / 64 < 0x80) := by omega
+    have b : 0xC0 ≤ 0xC0 + c / 64 ∧ 0xC0 + c / 64 < 0xE0 := by omega
+    have d : isCont (0x80 + c % 64) = true := by simp [isCont]; omega
+    have e : c / 64 * 64 + c % 64 = c := by omega
+    simp only [h1, h2, if_true, if_false, List.cons_append, List.nil_append]; rw [pyOfBytes.eq_def]; simp [a, b, d, e]
+  by_cases h3 : c < 0x10000
+  · have a : ¬ (0xE0 + c / 4096 < 0x80) := by omega
+    have b : ¬ (0xC0 ≤ 0xE0 + c / 4096 ∧ 0xE0 + c / 4096 < 0xE0) := by omega
+    have b' : 0xE0 ≤ 0xE0 + c / 4096 ∧ 0xE0 + c / 4096 < 0xF0 := by omega
+    have d1 : isCont (0x80 + c / 64 % 64) = true := by simp [isCont]; omega
+    have d2 : isCont (0x80 + c % 64) = true := by simp [isCont]; omega
+    have e : c / 4096 * 4096 + c / 64 % 64 * 64 + c % 64 = c := by omega
+    simp only [h1, h2, h3, if_true, if_false, List.cons_append, List.nil_append]; rw [pyOfBytes.eq_def]; simp [a, b, b', d1, d2, e]
+  · have a : ¬ (0xF0 + c / 262144 % 8 < 0x80) := by omega
+    have b : ¬ (0xC0 ≤ 0xF0 + c / 262144 % 8 ∧ 0xF0 + c / 262144 % 8 < 0xE0) := by omega
+    have b' : ¬ (0xE0 ≤ 0xF0 + c / 262144 % 8 ∧ 0xF0 + c / 262144 % 8 < 0xF0) := by omega
+    have b'' : 0xF0 ≤ 0xF0 + c / 262144 % 8 ∧ 0xF0 + c / 262144 % 8 < 0xF8 := by omega
+    have d1 : isCont (0x80 + c / 4096 % 64) = true := by simp [isCont]; omega
+    have d2 : isCont (0x80 + c / 64 % 64) = true := by simp [isCont]; omega
+    have d3 : isCont (0x80 + c % 64) = true := by simp [isCont]; omega
+    have e : c / 262144 % 8 * 262144 + c / 4096 % 64 * 4096 + c / 64 % 64 * 64 + c % 64 = c := by omega
+    simp only [h1, h2, h3, if_true, if_false, List.cons_append, List.nil_append]; rw [pyOfBytes.eq_def]; simp [a, b, b', b'', d1, d2, d3, e]
+
+/-- the wire format loses nothing: every `str` (surrogates included) comes back as it was written -/
+theorem wire_roundtrip (s : PyStr) (h : ∀ c ∈ s, c < 0x110000) : pyOfBytes (s.flatMap wireCp) = some s := by
+  induction s with
+  | nil => simp [pyOfBytes]
+  | cons c cs ih =>
+    simp only [List.flatMap_cons]
+    rw [pyOfBytes_wireCp c (h c (by simp)), ih (fun x hx => h x (by simp [hx]))]
+    rfl
 end WV.C01
